@@ -35,7 +35,7 @@ def cases(tier, seed):
     fams = ["geom", "unif", "clustered"]
     ns = [1, 2, 5, 13, 24] if tier == "quick" else [1, 2, 3, 5, 8, 13, 24, 40]
     for fam, n, cond, b, cols, sh, pre, tol, mi in itertools.product(
-            fams, ns, [10.0, 1e2, 1e4], [[], [2]], ["vec", "one", "three0"], ["none", "scalar", "vector", "batched"],
+            fams, ns, [10.0, 1e2, 1e4], [[], [2]], ["vec", "one", "three0"], ["none", "scalar", "vector", "vector_rev", "batched"],
             ["none", "jacobi", "exact", "alias"], [1e-4, 1e-12], ["default", "3", "half"]):
         if cols == "vec" and b:
             continue
@@ -97,7 +97,7 @@ def run_minres(case, feat, key):
         if cols == "three0":
             rhs[..., 1] = 0.0
     sh = case["sh"]
-    shifts = {"none": None, "scalar": torch.tensor(0.7, dtype=torch.float64), "vector": torch.tensor([0.0, 0.5, 3.0], dtype=torch.float64),
+    shifts = {"none": None, "scalar": torch.tensor(0.7, dtype=torch.float64), "vector": torch.tensor([0.0, 0.5, 3.0], dtype=torch.float64), "vector_rev": torch.tensor([100.0, 3.0, 0.0], dtype=torch.float64),
               "batched": (torch.tensor([0.0, 0.5, 3.0], dtype=torch.float64).reshape(3, *([1] * len(b))) + 0.1 * torch.arange(max(1, int(torch.Size(b).numel())), dtype=torch.float64).reshape(1, *b)) if b else None}[sh]
     pre, P = make_pre(case["pre"], K)
     env.set_settings({"minres_tolerance": case["tol"]})
@@ -159,6 +159,34 @@ def run_minres(case, feat, key):
         worst = max(worst, (rel.max().item() / bound))
         if rel.max().item() > bound:
             return result(VIOL, kind="residual", msg=f"shift #{qi}: relative residual {rel.max().item():.3g} > bound {bound:.3g} after {j} matrix products (kappa {kappa:.3g}, n={n})", feat=feat, keys=[key], nontrivial=nontriv)
+    # the stopping rule: a run that ends before its iteration budget must satisfy the documented criterion on the state it returns -
+    # the mean over ALL shifts, batch members and columns of |last update| / |solution| is below minres_tolerance. The last update is
+    # recovered exhaustively-deterministically as the difference to the run with one iteration less.
+    def run_budget(tolv, budget):
+        env.set_settings({"minres_tolerance": tolv})
+        cnt = [0]
+
+        def mmc(v):
+            cnt[0] += 1
+            return K @ v
+        out = call(minres, mmc, rhs, shifts=shifts, preconditioner=pre, max_iter=budget)
+        env.set_settings({"minres_tolerance": case["tol"]})
+        return out, cnt[0]
+    full, count_full = run_budget(0.0, mi)
+    if not isinstance(full, Raised) and count[0] < count_full:
+        _, c1 = run_budget(0.0, 1)
+        setup = c1 - 3  # the loop runs max_iter + 2 times
+        iters = count[0] - setup
+        prev, cprev = run_budget(0.0, iters - 3)
+        feat = dict(feat, early_stop=iters)
+        if iters - 3 >= 0 and not isinstance(prev, Raised) and cprev == count[0] - 1:
+            Xp = prev.unsqueeze(-1) if cols == "vec" else prev
+            Xp = Xp if multi else Xp.unsqueeze(0)
+            upd = (X - Xp).norm(dim=-2)
+            conv = (upd / X.norm(dim=-2)).mean().item()
+            if not conv < case["tol"] * 1.5 + 1e-14:
+                return result(VIOL, kind="stopping-rule", msg=f"stopped after {iters} iterations (budget allows {count_full - setup}) although the mean relative update over all "
+                              f"shifts and columns is {conv:.3g} >= minres_tolerance {case['tol']:g}", feat=feat, keys=[key], nontrivial=nontriv)
     # exact power-of-two scaling
     got2 = call(minres, K.matmul, rhs * 4.0, shifts=shifts, preconditioner=pre, max_iter=mi)
     got1 = call(minres, K.matmul, rhs, shifts=shifts, preconditioner=pre, max_iter=mi)
